@@ -269,7 +269,7 @@ def main():
         "property_id": pid, "tier": tier, "seed": seed, "level": level, "coverage": cov,
         "assumptions": meta.get("assumptions", []), "wall_s": wall, "violations": violations,
     }
-    if not only:
+    if not only and not os.environ.get("VT_NO_EVIDENCE"):
         os.makedirs(os.path.join(ROOT, "evidence"), exist_ok=True)
         with open(os.path.join(ROOT, "evidence", "%s.json" % pid), "w") as f:
             json.dump(ev, f, indent=1, default=str)
